@@ -59,9 +59,15 @@ func newShardResult(h string, shard, n int) *ShardResult {
 		Inconclusive: map[string]int{}, InconclusiveEx: map[string]string{}, BenignAborts: map[string]int{}, Reach: map[string]int{}}
 }
 
-func (x *Exec) explore(entry *ssa.Function) {
-	x.work = []workItem{{}}
-	x.seenViol = map[string]int{}
+// explore runs the DFS from the given initial work items (nil = the whole tree from the root)
+func (x *Exec) explore(entry *ssa.Function, initial []workItem) {
+	x.work = append([]workItem{}, initial...)
+	if initial == nil {
+		x.work = []workItem{{}}
+	}
+	if x.seenViol == nil {
+		x.seenViol = map[string]int{}
+	}
 	timedOut := false
 	for len(x.work) > 0 && !timedOut {
 		x.prefix = x.work[len(x.work)-1].prefix
@@ -120,9 +126,11 @@ func (x *Exec) explore(entry *ssa.Function) {
 		if timedOut {
 			break
 		}
-		if x.owned && x.nshards > 1 && len(x.decision) < x.splitDepth {
-			// short path: owned by the shard its whole decision vector hashes to
-			x.owned = int(hashDecisions(x.decision)%uint32(x.nshards)) == x.shard
+		// work donation: when other workers are idle, hand them the shallowest half of the local stack
+		if x.hungry != nil && len(x.work) > 1 && x.hungry() {
+			k := len(x.work) / 2
+			x.donate(append([]workItem{}, x.work[:k]...))
+			x.work = append([]workItem{}, x.work[k:]...)
 		}
 		if x.owned {
 			x.res.Paths++
@@ -138,10 +146,15 @@ func (x *Exec) explore(entry *ssa.Function) {
 			x.res.PathsOther++
 		}
 	}
-	x.res.Complete = !timedOut
 	if timedOut {
-		x.res.Error = fmt.Sprintf("timeout with %d prefixes still queued", len(x.work)+1)
+		x.res.Complete = false
+		x.res.Error = fmt.Sprintf("time limit reached with %d prefixes still queued in one task", len(x.work)+1)
 	}
+}
+
+// finish copies the per-worker totals into the result
+func (x *Exec) finish() {
+	x.res.Funcs = x.res.Funcs[:0]
 	for f := range x.funcsSeen {
 		x.res.Funcs = append(x.res.Funcs, f)
 	}
